@@ -426,7 +426,11 @@ def rule_nomemo(ctx, reaching, reach):
                         file=f.module.rel, function=f.qualname,
                         line=node.lineno, path=cg.path_to(fwd, fq))
                 continue
-            if decs:
+            if decs or ctx.effects.is_memoised(f):
+                if not decs:
+                    class _D:      # call-form memoisation: no decorator edge
+                        dst = 'functools.lru_cache (call form)'
+                    decs = [_D]
                 rr.fail(key_of(f, 'memoised on volatile path'),
                         '%s is memoised (%s) and lies on a call path from '
                         'volatile %s to %s: the first value would be served '
@@ -438,7 +442,43 @@ def rule_nomemo(ctx, reaching, reach):
                 rr.ok('%s (on path %s -> %s) carries no memoising decorator' % (
                     f.qualname, reg.key, sorted(reach[fq])[0]),
                     '%s:%d' % (f.module.rel, f.lineno))
+    # the generic wrappers every registration of a volatile function goes
+    # through, and the functions nested in them (the per-element evaluator):
+    # a memo on one of them serves the first reading for ever
+    seen_w = set()
+    for name, found in sorted(reaching.items()):
+        reg = R.functions.get(name) or R.operators.get(name)
+        inner, _ = reg_targets(ctx, reg)
+        layers, _ = reg_targets(ctx, reg, include_wrappers=True)
+        for w in layers:
+            if w in inner:
+                continue
+            for g in [w] + [x for x in ctx.project.functions.values()
+                            if x.parent is not None and _top(x) is w]:
+                if g.fq in seen_w:
+                    continue
+                seen_w.add(g.fq)
+                rr.instances += 1
+                if ctx.effects.is_memoised(g):
+                    rr.fail(key_of(g, 'memoised wrapper layer of a volatile '
+                                      'function'),
+                            '%s is memoised and is a layer every call of the '
+                            'volatile %s goes through: the first value '
+                            'computed for a set of arguments is served on '
+                            'every later calculation' % (g.qualname, reg.key),
+                            file=g.module.rel, function=g.qualname,
+                            line=g.lineno)
+                else:
+                    rr.ok('%s (wrapper layer of %s) is not memoised' % (
+                        g.qualname, reg.key), '%s:%d' % (g.module.rel,
+                                                          g.lineno))
     return rr
+
+
+def _top(f):
+    while f.parent is not None:
+        f = f.parent
+    return f
 
 
 def find_preeval_sites(ctx):
@@ -610,24 +650,44 @@ def rule_refs(ctx):
                    for x in ast.walk(u.args[0]))
 
     upd = [u for u in upd if over_solution(u)]
-    if not upd:
-        raise AnalysisError('_update_refs: the statement that stores the '
-                            'pre-evaluated references was not recognised')
-    rr.instances = max(1, len(upd))
-    if not upd:
-        rr.ok('_update_refs does not store evaluation results', f.module.rel,
-              nontrivial=False)
-        return rr
+    # one view of the two spellings: (statement, name of the stored value,
+    # conditions under which it is stored)
+    stores = []
     for u in upd:
-        comp = u.args[0]
-        val_name = None
-        g = comp.generators[0]
+        g = u.args[0].generators[0]
+        vn = None
         if isinstance(g.target, ast.Tuple) and len(g.target.elts) == 2 and \
                 isinstance(g.target.elts[1], ast.Name):
-            val_name = g.target.elts[1].id
+            vn = g.target.elts[1].id
+        stores.append((u, vn, list(g.ifs)))
+    # ... or item by item: `for k, v in sol.items(): if ...: refs[k] = v`
+    from ..util import path_conditions
+    prm = set(f.params[1:])
+    for lp in own_nodes(f):
+        if not (isinstance(lp, ast.For) and isinstance(
+                lp.iter, ast.Call) and isinstance(
+                lp.iter.func, ast.Attribute) and lp.iter.func.attr in (
+                'items', 'values') and (
+                isinstance(lp.iter.func.value, ast.Name) and
+                lp.iter.func.value.id in sols or isinstance(
+                    lp.iter.func.value, ast.Call))):
+            continue
+        for n in ast.walk(lp):
+            if isinstance(n, ast.Assign) and len(n.targets) == 1 and \
+                    isinstance(n.targets[0], ast.Subscript) and isinstance(
+                    n.targets[0].value, ast.Name) and \
+                    n.targets[0].value.id in prm and isinstance(
+                    n.value, ast.Name):
+                stores.append((n, n.value.id, [
+                    c for c, pol in path_conditions(f, n) if pol]))
+    if not stores:
+        raise AnalysisError('_update_refs: the statement that stores the '
+                            'pre-evaluated references was not recognised')
+    rr.instances = max(1, len(stores))
+    for u, val_name, conds in stores:
         only_ranges = False
         admitted = []
-        for cond in g.ifs:
+        for cond in conds:
             for c in ast.walk(cond):
                 if isinstance(c, ast.Call) and isinstance(c.func, ast.Name) and \
                         c.func.id == 'isinstance' and len(c.args) == 2 and \
@@ -663,6 +723,9 @@ FLOAT_CALLS = {'numpy.random.rand', 'numpy.random.random', 'random.random',
                'random.uniform', 'numpy.random.uniform', 'builtins.float',
                'numpy.random.random_sample', 'numpy.random.ranf'}
 HALF_OPEN_RANDINT = {'numpy.random.randint', 'random.randrange'}
+ROUNDERS = {'builtins.int', 'builtins.round', 'math.floor', 'math.ceil',
+            'math.trunc', 'numpy.floor', 'numpy.ceil', 'numpy.rint',
+            'numpy.trunc', 'numpy.fix', 'numpy.round'}
 
 
 def _kind(ctx, f, e, env):
@@ -749,6 +812,39 @@ def rule_randint(ctx):
                     continue
                 verdicts.append((st, _kind(ctx, f, st.value, env)))
 
+    # a registered input_parser computes what the core receives: its returned
+    # tuple gives the kinds of the core's parameters
+    pf = None
+    ip = reg.cfg.get('input_parser')
+    from ..peval import FuncV as _FuncV
+    if isinstance(ip, _FuncV) and not ip.fi.is_lambda:
+        pf = ip.fi
+        penv, pret = {}, []
+
+        def pwalk(stmts, e_):
+            for st in stmts:
+                if isinstance(st, ast.Assign):
+                    for t in st.targets:
+                        if isinstance(t, ast.Tuple) and isinstance(
+                                st.value, ast.Tuple) and len(t.elts) == len(
+                                st.value.elts):
+                            for tt, vv in zip(t.elts, st.value.elts):
+                                if isinstance(tt, ast.Name):
+                                    e_[tt.id] = _kind(ctx, pf, vv, e_)
+                        elif isinstance(t, ast.Name):
+                            e_[t.id] = _kind(ctx, pf, st.value, e_)
+                elif isinstance(st, ast.If):
+                    pwalk(st.body, dict(e_))
+                    pwalk(st.orelse, dict(e_))
+                elif isinstance(st, ast.Return) and isinstance(
+                        st.value, ast.Tuple):
+                    pret.append([_kind(ctx, pf, v, e_) for v in st.value.elts])
+
+        pwalk(pf.body, penv)
+        for i, prm in enumerate(f.params):
+            ks = {r_[i] for r_ in pret if i < len(r_)}
+            if len(ks) == 1:
+                env[prm] = ks.pop()
     walk(f.body, env)
     if not verdicts:
         raise AnalysisError('%s: no value-returning path' % f.qualname)
@@ -770,15 +866,19 @@ def rule_randint(ctx):
             '%s:%d' % (f.module.rel, f.lineno))
     # the empty-range guard must test the bounds the draw uses: if a bound is
     # re-assigned (rounded) after the guard, the guard judged other values
-    if len(f.params) >= 2:
+    for f in [x for x in (pf, f) if x is not None and len(x.params) >= 2]:
         lo, hi = f.params[0], f.params[1]
         guards = [st for st in f.node.body if isinstance(st, ast.If) and any(
             isinstance(r_, ast.Return) and r_.value is not None and
-            'errors[' in norm_src(r_.value) for r_ in st.body) and
+            'errors[' in norm_src(r_.value) or isinstance(r_, ast.Raise) and
+            'errors[' in norm_src(r_) for r_ in st.body) and
             {lo, hi} <= names_in(st.test) | {
                 x for t_, v_, _s in assign_pairs(f)
                 if isinstance(t_, ast.Name) and t_.id in names_in(st.test)
-                for x in names_in(v_)}]
+                for x in names_in(v_)} and any(
+                isinstance(c_, ast.Compare) and any(isinstance(
+                    o_, (ast.Lt, ast.LtE, ast.Gt, ast.GtE)) for o_ in c_.ops)
+                for c_ in ast.walk(st.test))]
         if guards:
             rr.instances += 1
             g = guards[-1]
@@ -786,6 +886,18 @@ def rule_randint(ctx):
                      isinstance(st, (ast.Assign, ast.AugAssign)) and any(
                          isinstance(x, ast.Name) and x.id in (lo, hi) and
                          isinstance(x.ctx, ast.Store) for x in ast.walk(st))]
+            # ... or the bounds are rounded on the way out (a parser that
+            # returns `ceil(bottom), floor(top)` after the guard)
+            later += [st for st in f.node.body if st.lineno > g.lineno and
+                      isinstance(st, ast.Return) and any(
+                          isinstance(c_, ast.Call) and isinstance(
+                              c_.func, (ast.Name, ast.Attribute)) and (
+                              ctx.cg.resolve_name_expr(f, c_.func) or ('',
+                                                                        ''))[
+                              1] in ROUNDERS and len(c_.args) == 1 and
+                          isinstance(c_.args[0], ast.Name) and
+                          c_.args[0].id in (lo, hi)
+                          for c_ in ast.walk(st))]
             if later:
                 rr.fail(key_of(f, 'range guard tests the bounds before they '
                                   'are rounded'),
